@@ -103,7 +103,8 @@ def cap_runouts(state):
 class World:
     def __init__(self, ch, ctx, cfg, monitors=(), *, profile=None, dealer=None, run_key='k',
                  autos_mask=None, muck_num=1, runout_prefs=(None, 1, 2, 2, 3), partial_show=True,
-                 explicit_index_num=1, commentary_num=0, adopt=None, free_showdown_num=1, force_show=False):
+                 explicit_index_num=1, commentary_num=0, adopt=None, free_showdown_num=1, force_show=False,
+                 commentary_fn=None):
         self.ch = ch
         self.ctx = ctx
         self.cfg = cfg
@@ -126,6 +127,7 @@ class World:
         self.tick_cap = 400 + 60 * self.n
         self.autos_mask = cfg['autos'] if autos_mask is None else autos_mask
         self.commentary_num = commentary_num
+        self.commentary_fn = commentary_fn
         self.free_showdown_num = free_showdown_num
         self.force_show = force_show
         if adopt is not None:
@@ -159,7 +161,8 @@ class World:
         st = self.state
         before = len(st.operations)
         if self.commentary_num and not kw and self.ch.chance('commentary', self.commentary_num, 8):
-            kw = {'commentary': 'note %d' % len(self.decisions)}
+            kw = {'commentary': self.commentary_fn(self.ch, len(self.decisions)) if self.commentary_fn
+                  else 'note %d' % len(self.decisions)}
         self.decisions.append((name, args) if not kw else (name, args, kw))
         self.in_call = (name, args)
         with observe.session(self._on_op):
